@@ -68,6 +68,9 @@ pub fn load_container<T: Deserialize + WithSchema>(container: &str, version: u32
 }
 
 pub fn run<T: Serialize + Deserialize + WithSchema + Packed + Canon>(op: &str, toks: &[&str], values: fn() -> Vec<T>) -> String {
+    if let Some(r) = crate::io_ops::run::<T>(op, toks, values) {
+        return r;
+    }
     match op {
         // ty_rt <container> <version> <validx> : save, then load what was saved
         "ty_rt" => {
